@@ -18,12 +18,13 @@ import (
 type origins struct {
 	params uint64 // bit i: may alias (the pointee of) parameter i
 	pooled bool
+	global bool // may share memory with the byte storage of a package-level variable
 }
 
-func (o origins) empty() bool { return o.params == 0 && !o.pooled }
+func (o origins) empty() bool { return o.params == 0 && !o.pooled && !o.global }
 
 func (o *origins) merge(b origins) bool {
-	n := origins{o.params | b.params, o.pooled || b.pooled}
+	n := origins{o.params | b.params, o.pooled || b.pooled, o.global || b.global}
 	ch := n != *o
 	*o = n
 	return ch
@@ -321,6 +322,9 @@ func (a *aliasAnalysis) analyse(fn *ssa.Function) bool {
 						// a package-level pool object
 						if strings.Contains(g.Type().String(), "Pool") {
 							o = origins{}
+						} else if g.Pkg != nil && load.InModule(g.Pkg.Pkg) && containsByteSlice(x.Type(), 0) {
+							// the octets of a package-level slice: whoever receives them shares them with every other caller
+							o.global = true
 						}
 					}
 					set(x, o)
@@ -447,7 +451,7 @@ func (a *aliasAnalysis) call(fn *ssa.Function, v *ssa.Call, cc *ssa.CallCommon, 
 		return
 	}
 	translate := func(o origins, callerArgs []origins) origins {
-		r := origins{pooled: o.pooled}
+		r := origins{pooled: o.pooled, global: o.global}
 		for i := range callerArgs {
 			if o.params&(1<<uint(i)) != 0 {
 				r.merge(callerArgs[i])
